@@ -1149,8 +1149,9 @@ class StyleProcessors:
       )
       
       if position.v_edge is styles.PositionType.VEdge.bottom:
+        # the offset is measured between the bottom edges of the root container and the region
         v_offset = styles.LengthType(
-          value=100 - v_offset.value,
+          value=100 - extent.height.value - v_offset.value,
           units=v_offset.units
         )
 
@@ -1163,8 +1164,9 @@ class StyleProcessors:
       )
 
       if position.h_edge is styles.PositionType.HEdge.right:
+        # the offset is measured between the right edges of the root container and the region
         h_offset = styles.LengthType(
-          value=100 - h_offset.value,
+          value=100 - extent.width.value - h_offset.value,
           units=h_offset.units
         )
 
